@@ -3,6 +3,7 @@ package main
 import (
 	"fmt"
 	"go/token"
+	"go/types"
 	"regexp"
 	"sort"
 	"strings"
@@ -31,6 +32,9 @@ func checkC15(p *Prog, l *Ledger) {
 	checkPrintClause(cs, l, "C15/S1-one-line")
 	// ---- S2
 	checkTextSites(p, l)
+	// what `+` splices in for a text operand is that text itself, and for a number the %v rendering: the `+` row of
+	// C02's operator table (text(left) + text(right), operands unchanged)
+	l.AsOnlyWhere(map[string]string{"C02/I1-operator-table": "C15/S3-concatenation-operands"}, func(o *Obligation) bool { return o.Construct == "Binary#PLUS" }, func() { checkC02(p, l) })
 	// stringify(nil) == "nil"
 	if fn := p.Func("interpreter.stringify"); fn != nil {
 		mm := NewInterpModel(p, "stringify[nil]")
@@ -122,6 +126,17 @@ func checkTextSites(p *Prog, l *Ledger) {
 			case strings.HasPrefix(name, "strconv.Format") || name == "strconv.Itoa" || strings.HasPrefix(name, "strconv.Append"):
 				cnt++
 				n++
+				numeric := false
+				for i := 0; i < sc.Signature.Params().Len(); i++ {
+					if b, ok := sc.Signature.Params().At(i).Type().Underlying().(*types.Basic); ok && b.Info()&types.IsNumeric != 0 && (i == 0 || (i == 1 && strings.HasPrefix(name, "strconv.Append"))) {
+						numeric = true
+					}
+				}
+				if !numeric {
+					// FormatBool / AppendBool: "true"/"false", the text %v gives for a bool
+					l.Discharge(rule, fmt.Sprintf("%s#%s#%d", fk, sc.Name(), cnt), p.InstrPos(in), name+" renders a bool exactly as %v does", true)
+					return
+				}
 				l.Violate(rule, fmt.Sprintf("%s#%s#%d", fk, sc.Name(), cnt), p.InstrPos(in), "value text produced with "+name+": a second number-to-text routine beside fmt %v")
 			case name == "fmt.Errorf":
 				// diagnostics only
